@@ -186,13 +186,13 @@ Section Spec.
      list of relevant live tracks) *)
 
   Lemma g_submitted_prologue st : g_submitted (prologue c st) = g_submitted st.
-  Proof. unfold prologue. destruct (aw_cnt st =? 0); reflexivity. Qed.
+  Proof. rewrite prologue_eq. destruct (aw_cnt st =? 0); reflexivity. Qed.
 
   Lemma next_id_prologue st : next_id (prologue c st) = next_id st.
-  Proof. unfold prologue. destruct (aw_cnt st =? 0); reflexivity. Qed.
+  Proof. rewrite prologue_eq. destruct (aw_cnt st =? 0); reflexivity. Qed.
 
   Lemma epochs_prologue st : epochs (prologue c st) = epochs st.
-  Proof. unfold prologue. destruct (aw_cnt st =? 0); reflexivity. Qed.
+  Proof. rewrite prologue_eq. destruct (aw_cnt st =? 0); reflexivity. Qed.
 
   Definition pc_epoch (st : tstate) (scene : N) : N := epoch_of (epochs st) scene + 1.
   Definition pc_st1 (st : tstate) (scene : N) : tstate :=
